@@ -265,3 +265,56 @@ def layers_not_truth_tested(ctx, rep, R):
     rep.floor(R, seen, 4, 'functions holding layer values')
     rep.ok(R, '%d functions hold layer values (table + def-use); no layer value is truth-tested' % seen)
     return n
+
+
+# ---- argument roles ---------------------------------------------------------------------------
+def argument_roles_agree(ctx, rep, R):
+    """Engler-style belief rule, unanimous on this code base (357 of 357 positional arguments at the
+    time of writing): when a call passes a plain local whose NAME is the name of one of the callee's
+    parameters, it passes it in that parameter's position.  The one way to break it while everything
+    still runs in the common case is dropping / inserting a middle argument of a call whose later
+    parameters have defaults (``_iter_chain(cause, seen)`` binds the ``seen`` set to ``custom_tb``):
+    the value then flows into code that expects another type and raises only on the rare path."""
+    rep.rule(R, 'nothing the runner does on the reporting path fails on a mis-bound argument: at every '
+             'call whose callee is resolved inside the package, a positional argument that is a plain '
+             'name equal to one of the callee\'s parameter names is bound to THAT parameter (self / cls '
+             'excepted); a keyword argument is bound by name and always agrees')
+    m = ctx.model
+    n = 0
+    for fi in m.all_functions():
+        if fi.module.name.startswith('tests'):
+            continue
+        for c in ast.walk(fi.node):
+            if not isinstance(c, ast.Call):
+                continue
+            try:
+                r = ctx.cg.resolve_call(c, fi)
+            except Exception:
+                r = None
+            if not isinstance(r, list) or len(r) != 1:
+                continue
+            t = r[0]
+            ps = [a.arg for a in t.node.args.posonlyargs + t.node.args.args]
+            explicit = isinstance(c.func, ast.Attribute) and c.func.attr == t.node.name and not (
+                isinstance(c.func.value, ast.Name) and c.func.value.id in ('self', 'cls')) and c.args and \
+                isinstance(c.args[0], ast.Name) and c.args[0].id == 'self'
+            off = 0 if explicit or not (ps and ps[0] in ('self', 'cls')) else 1
+            for i, a in enumerate(c.args):
+                if isinstance(a, ast.Starred):
+                    break
+                j = i + off
+                if j >= len(ps):
+                    break
+                n += 1
+                if isinstance(a, ast.Name) and a.id not in ('self', 'cls') and a.id != ps[j] and a.id in ps:
+                    rep.check(False, R, '%s: %s' % (fi.qualname, norm(c)[:60]),
+                              'the call %s in %s binds the local %r to the parameter %r of %s, which has a '
+                              'parameter named %r of its own: an argument was dropped or inserted and the '
+                              'value reaches code that expects something else' % (
+                                  norm(c)[:70], fi.qualname, a.id, ps[j], t.qualname, a.id),
+                              key='arg-role:%s:%s:%s' % (fi.qualname, t.qualname, a.id), func=fi.qualname,
+                              where=ctx.where(fi, c))
+    rep.floor(R, n, 200, 'positional arguments at resolved call sites')
+    rep.ok(R, '%d positional arguments at call sites resolved inside the package: every plain name that is '
+           'also a parameter name of the callee is bound to that parameter' % n)
+    return n
